@@ -906,7 +906,8 @@ class TmpPool:
                 # already removed
                 pass
 
-        self._created_files = self._manager.list() if self._multi_proc else []
+        # cleared in place: with multi_proc other processes hold a proxy of this very list
+        del self._created_files[:]
 
 
 class FilePool(Mapping[str, IO]):
